@@ -224,6 +224,8 @@ class SiteTracer(Tracer):
         if ov is not None:
             return ov
         mm = STD_NUM_RX.match(path or "")
+        if mm and mm.group(2) == "checked_sub" and len(args) == 2 and isinstance(args[0], Poly) and isinstance(args[1], Poly) and "impl u" in path:
+            return ("opt", app("bool_to_option", self.arith("Le", args[1], args[0])), args[0] - args[1])
         if mm:
             if mm.group(2) in ("min", "max") and len(args) == 2:
                 from .symx import mk_minmax
@@ -278,11 +280,16 @@ class SiteTracer(Tracer):
             loop = ("iter", hint, d)
             val = app("elem?", var(hint))
         self.loops.append(loop)
+        npush = 0
         try:
             for layer in reversed(layers):
                 kind = layer[0]
                 if kind in ("map", "filter", "filter_map", "take_while", "map_while", "flat_map") and len(layer) > 2:
                     r = self.apply_any(layer[2], [val])
+                    if kind in ("filter", "take_while") and isinstance(r, Poly):
+                        # elements that get past a filter satisfy its predicate
+                        self.guards.append((r, True))
+                        npush += 1
                     if kind == "map":
                         val = r
                     elif kind in ("filter_map", "map_while", "flat_map"):
@@ -300,6 +307,8 @@ class SiteTracer(Tracer):
                 then(val)
             return val
         finally:
+            for _ in range(npush):
+                self.guards.pop()
             self.loops.pop()
 
     def consume_inner(self, desc, hint):
@@ -531,6 +540,8 @@ def le_facts(guards, loops):
         if fn == "and" and pol:
             sub = [(atom_args(a)[0], True), (atom_args(a)[1], True)]
             facts += le_facts(sub, [])
+        if fn == "matches" and not pol and len(args) == 2 and str(args[1]).strip("'") == "0" and isinstance(args[0], Poly):
+            facts.append((num(0), args[0], True))      # `match x { 0 => .., _ => here }` on an unsigned x: x >= 1
     for l in loops:
         if l[0] == "range":
             v = var(l[1])
@@ -855,6 +866,34 @@ class Audit:
                 s["dup"] = True
             if key in ("call:zeros", "call:uninit", "call:from_elem"):
                 auto = "allocation of the declared size (no index involved)"
+            if key in ("call:slice", "call:slice_mut", "call:multi_slice_mut") and len(vals) == 2 and auto is None:
+                # s![..] specifications: an index must be below its dimension, an open range may start anywhere up to it
+                from .linalg_rules import all_slice_specs
+                specs = all_slice_specs(vals[1])
+                dims = self.dims_of(vals[0])
+                okall = bool(specs) and dims is not None and all(d is not None for d in dims)
+                unp_ = lambda k: k[1] if isinstance(k, tuple) and len(k) == 2 and k[0] == "P" else k
+                for sp_ in specs if okall else []:
+                    if len(sp_) != len(dims):
+                        okall = False
+                        break
+                    for ent, dim in zip(sp_, dims):
+                        ent = unp_(ent)
+                        if isinstance(ent, Poly):
+                            okall = okall and proves_lt(ent, dim, facts, s["loops"])
+                        elif isinstance(ent, tuple) and ent and ent[0] == "struct" and ent[1] == "RangeFull":
+                            pass
+                        elif isinstance(ent, tuple) and ent and ent[0] == "struct" and ent[1] == "RangeFrom":
+                            st_ = unp_(dict(ent[2]).get("start"))
+                            okall = okall and isinstance(st_, Poly) and (proves_le(st_, dim, facts) or proves_lt(st_, dim, facts, s["loops"]))
+                        elif isinstance(ent, tuple) and ent and ent[0] == "struct" and ent[1] == "Range":
+                            f_ = dict(ent[2])
+                            a_, b_ = unp_(f_.get("start")), unp_(f_.get("end"))
+                            okall = okall and isinstance(a_, Poly) and isinstance(b_, Poly) and proves_le(b_, dim, facts) and proves_le(a_, b_, facts)
+                        else:
+                            okall = False
+                if okall:
+                    auto = "every s![..] entry lies within the array's dimensions"
             if key in ("call:windows", "call:chunks", "call:chunks_exact") and len(vals) == 2 and isinstance(vals[1], Poly) and \
                     vals[1].const_value() is not None and vals[1].const_value() > 0:
                 auto = "non-zero constant window/chunk size"
